@@ -19,6 +19,7 @@
 package didnuts
 
 import (
+	"crypto/ecdsa"
 	"encoding/json"
 	"errors"
 	"fmt"
@@ -82,9 +83,30 @@ func (v verificationMethodValidator) verifyThumbprint(method *did.VerificationMe
 		// JWK() returns nil without an error when the verification method has no publicKeyJwk
 		return errors.New("unable to get JWK: publicKeyJwk is missing")
 	}
+	if err = checkPublicKey(keyAsJWK); err != nil {
+		return fmt.Errorf("invalid JWK: %w", err)
+	}
 	_ = jwk.AssignKeyID(keyAsJWK)
 	if keyAsJWK.KeyID() != method.ID.Fragment {
 		return errors.New("key thumbprint does not match ID")
+	}
+	return nil
+}
+
+// checkPublicKey returns an error if key is an EC public key whose coordinates are not a point on its curve.
+// The JWK parser accepts such keys (e.g. coordinates of more bytes than the curve size),
+// but calculating their thumbprint panics.
+func checkPublicKey(key jwk.Key) error {
+	var raw interface{}
+	if err := key.Raw(&raw); err != nil {
+		return err
+	}
+	if ecKey, ok := raw.(*ecdsa.PublicKey); ok {
+		p := ecKey.Curve.Params().P
+		if ecKey.X == nil || ecKey.Y == nil || ecKey.X.Sign() < 0 || ecKey.Y.Sign() < 0 || ecKey.X.Cmp(p) >= 0 || ecKey.Y.Cmp(p) >= 0 ||
+			!ecKey.Curve.IsOnCurve(ecKey.X, ecKey.Y) {
+			return errors.New("EC public key is not a point on its curve")
+		}
 	}
 	return nil
 }
